@@ -8,5 +8,6 @@ Lemma link_policy_all_fresh : all_fresh Gen.Alias.policy_of_source = true.
 Proof. reflexivity. Qed.
 Lemma link_sampler_accessors :
   Gen.Alias.sample_returns_get_current = true /\ Gen.Alias.results_returns_compute_results = true
-  /\ Gen.Alias.posterior_built_from_flat_history = true /\ Gen.Alias.ensure_copy_copies_ndarrays = true.
+  /\ Gen.Alias.posterior_built_from_flat_history = true /\ Gen.Alias.ensure_copy_copies_ndarrays = true
+  /\ Gen.Alias.rejected_commit_raises_before_any_append = true.
 Proof. repeat split. Qed.
